@@ -21,6 +21,7 @@ import (
 	"go/token"
 	"go/types"
 	"os"
+	"os/exec"
 	"path/filepath"
 	"sort"
 	"strings"
@@ -154,12 +155,13 @@ func classify(fn *types.Func) (string, bool) {
 }
 
 type stats struct {
-	Calls    map[string]int `json:"calls"`
-	Go       int            `json:"go_stmts"`
-	Locks    int            `json:"locks"`
-	MapRange int            `json:"map_ranges"`
-	Skipped  []string       `json:"skipped"`
-	Files    int            `json:"files"`
+	Calls       map[string]int `json:"calls"`
+	Go          int            `json:"go_stmts"`
+	Locks       int            `json:"locks"`
+	MapRange    int            `json:"map_ranges"`
+	HTTPClients int            `json:"http_client_literals"`
+	Skipped     []string       `json:"skipped"`
+	Files       int            `json:"files"`
 }
 
 func isPure(e ast.Expr) bool {
@@ -272,9 +274,20 @@ func main() {
 			fp.Write(b)
 		}
 	}
-	// added file in backend/s3proxy: constructor taking an http.Client
-	if extra := filepath.Join(*rt, "extra", "s3proxy_verif.go.txt"); fileExists(extra) {
-		overlay[filepath.Join(repoAbs, "backend", "s3proxy", "zz_verif_newclient.go")] = extra
+	// added file in the AWS SDK's package aws (module cache, through the overlay only): exposes the
+	// SDK's own test seams for its clock and its retry sleeps (internal/sdk NowTime / Sleep)
+	if extra := filepath.Join(*rt, "extra", "awssdk_clock.go.txt"); fileExists(extra) {
+		cmd := exec.Command("go", "list", "-m", "-f", "{{.Dir}}", "github.com/aws/aws-sdk-go-v2")
+		cmd.Dir = repoAbs
+		cmd.Env = append(os.Environ(), "GOFLAGS=-mod=mod", "GOPROXY=off", "GOSUMDB=off")
+		outb, err := cmd.Output()
+		if err != nil {
+			fmt.Fprintf(os.Stderr, "instrument: locate aws-sdk-go-v2: %v\n", err)
+			os.Exit(2)
+		}
+		overlay[filepath.Join(strings.TrimSpace(string(outb)), "aws", "zz_verif_clock.go")] = extra
+		b, _ := os.ReadFile(extra)
+		fp.Write(b)
 	}
 
 	// fiber config literal from cmd/versitygw/main.go
@@ -294,6 +307,15 @@ func main() {
 	sb, _ := json.MarshalIndent(st, "", " ")
 	must(os.WriteFile(filepath.Join(*out, "stats.json"), sb, 0o644))
 	must(os.WriteFile(filepath.Join(*out, "fingerprint"), []byte(hex.EncodeToString(fp.Sum(nil))[:16]), 0o644))
+}
+
+func isRT(e ast.Expr, name string) bool {
+	se, ok := e.(*ast.SelectorExpr)
+	if !ok {
+		return false
+	}
+	id, ok := se.X.(*ast.Ident)
+	return ok && id.Name == rtName && se.Sel.Name == name
 }
 
 func fileExists(p string) bool { _, err := os.Stat(p); return err == nil }
@@ -399,6 +421,31 @@ func rewriteFile(fset *token.FileSet, f *ast.File, info *types.Info, rel string,
 			}
 			n.Fun = &ast.CallExpr{Fun: sel(rtName, "Wrap"), Args: []ast.Expr{str(name), str(stableSite(n, name)), n.Fun}}
 			st.Calls[name]++
+			changed = true
+		case *ast.UnaryExpr:
+			// &http.Client{...}
+			if n.Op != token.AND {
+				return true
+			}
+			cl, ok := n.X.(*ast.CompositeLit)
+			if !ok {
+				return true
+			}
+			tv, ok := info.Types[cl]
+			if !ok {
+				return true
+			}
+			nt, ok := tv.Type.(*types.Named)
+			if !ok || nt.Obj().Pkg() == nil || nt.Obj().Pkg().Path() != "net/http" || nt.Obj().Name() != "Client" {
+				return true
+			}
+			if _, inWrap := c.Parent().(*ast.CallExpr); inWrap {
+				if ce := c.Parent().(*ast.CallExpr); isRT(ce.Fun, "HTTPClient") {
+					return true
+				}
+			}
+			c.Replace(&ast.CallExpr{Fun: sel(rtName, "HTTPClient"), Args: []ast.Expr{str(site(n)), n}})
+			st.HTTPClients++
 			changed = true
 		case *ast.RangeStmt:
 			tv, ok := info.Types[n.X]
